@@ -39,7 +39,7 @@ def drive(case, res, on_episode, trace_enabled=True, record_settings=None, max_r
             run.trace.enabled = False
         budget = 30.0 if case["clock"] == "SIMULATED" else 60.0
         for e, n in enumerate(spec["episodes"]):
-            gs = run.gs0.replace(eps=onp.int32(e))
+            gs = run.start_state(e)
             if case["mode"] == "run":
                 outs, rec = run.episode_run(gs, n, budget_s=budget)
             else:
